@@ -9,7 +9,7 @@
     props/Properties_C13.v. *)
 Require Import Reals List ZArith Bool Arith Lia Lra Field.
 From Coquelicot Require Import Coquelicot.
-From PV Require Import Fock EDSpec Container4 Container4Spec GFIdentities ChiSymmetry ChiSymmetryProofs.
+From PV Require Import Fock EDSpec Container4 Container4Spec GFIdentities ChiSymmetry ChiSymmetryProofs ChiSymmetryContainer.
 Import ListNotations.
 Local Open Scope R_scope.
 
@@ -187,4 +187,15 @@ Proof.
       exfalso; revert H; unfold Rabs; destruct (Rcase_abs _); lra.
   - intros i. apply (op_matrix_square C CNum 2).
   - intros i. apply (op_matrix_square C CNum 2).
+Qed.
+
+(** On this data no hypothesis about chi is left: every value any history of container calls returns is the
+    Lehmann chi of the requested quadruple at the requested Matsubara indices. *)
+Theorem eval_sound_hubC :
+  forall (fixed : bool) (van : quad -> bool) (nidx : nat) (ops : list Container4.cop) (q : quad) (t : triple)
+         (sg : Z) (q0 : quad) (t0 : triple),
+  eval_out fixed van nidx (fst (run fixed van nidx ops)) q t = OVal sg q0 t0 ->
+  kscale C CNum sg (chi_lehmann C CNum hubC q0 t0) = chi_lehmann C CNum hubC q t.
+Proof.
+  exact (eval_sound_lehmann C CNum Cinv CNum_field CNum_abs_opp CNum_nz_exact 4%nat hubC hubC_regular).
 Qed.
